@@ -265,40 +265,24 @@ Qed.
 
 (* ------------------------------------------------------------------ which operations keep everything tracked *)
 
-Definition scalars (items : list jv) : bool := forallb (fun v => negb (is_container v)) items.
-
-(* an iterable argument that is not a list is harmless only if it carries no containers *)
-Definition lact_args_ok (a : lact) : bool :=
-  match a with
-  | LSetSlice _ _ aslist items | LExtend aslist items => aslist || scalars items
-  | _ => true
-  end.
-
 Section WithWr.
 Variable wr : mname -> bool.
 
 Definition act_ok (a : act) : bool :=
   match a with
-  | AL la => wr (lact_name la) && lact_args_ok la
+  | AL la => wr (lact_name la)
   | AD da => wr (dact_name da)
   | ARead => true
   end.
 
 Definition is_read (a : act) : bool := match a with ARead => true | _ => false end.
 
-Lemma conv_items_tagged o aslist items :
-  aslist || scalars items = true -> forallb (tagged o) (conv_items (Some o) aslist items) = true.
-Proof.
-  intros H. unfold conv_items. destruct aslist.
-  - induction items as [|v items IH]; cbn; [reflexivity | now rewrite tagged_wrap, IH].
-  - cbn in H. unfold scalars in H. induction items as [|v items IH]; cbn in *; [reflexivity|].
-    apply andb_true_iff in H as [Hv Hi]. rewrite tagged_scalar, IH; auto. now destruct (is_container v).
-Qed.
+Lemma conv_items_tagged o aslist items : forallb (tagged o) (conv_items (Some o) aslist items) = true.
+Proof. unfold conv_items. induction items as [|v items IH]; cbn; [reflexivity | now rewrite tagged_wrap, IH]. Qed.
 
-Lemma conv_lact_ok o la : lact_args_ok la = true -> largs_ok (tagged o) (conv_lact (Some o) la) = true.
+Lemma conv_lact_ok o la : largs_ok (tagged o) (conv_lact (Some o) la) = true.
 Proof.
-  destruct la; cbn [conv_lact largs_ok lact_args_ok]; intros H; try reflexivity; try apply tagged_wrap;
-    try (now apply conv_items_tagged).
+  destruct la; cbn [conv_lact largs_ok]; try reflexivity; try apply tagged_wrap; apply conv_items_tagged.
 Qed.
 
 Lemma conv_kvs_tagged o kvs : vall (tagged o) (conv_kvs (Some o) kvs) = true.
@@ -315,10 +299,10 @@ Proof.
   intros Ht Ha E. destruct a as [la|da|]; cbn [apply_act act_ok is_read] in *.
   - destruct t as [| | | |tag l|]; try discriminate.
     rewrite tagged_list in Ht. apply andb_true_iff in Ht as [Htag Hl]. apply tag_is_eq in Htag. subst tag.
-    apply andb_true_iff in Ha as [Hw Hargs]. rewrite Hw in E.
+    rewrite Ha in E.
     destruct (list_step (conv_lact (Some o) la) l) as [l'|] eqn:Es; [|discriminate]. inversion E; subst.
     split; [|reflexivity]. rewrite tagged_list. cbn [tag_is]. rewrite owner_eqb_refl. cbn [andb].
-    eapply list_step_fb; eauto. now apply conv_lact_ok.
+    eapply list_step_fb; eauto. apply conv_lact_ok.
   - destruct t as [| | | | |tag d]; try discriminate.
     rewrite tagged_dict in Ht. apply andb_true_iff in Ht as [Htag Hd]. apply tag_is_eq in Htag. subst tag.
     rewrite Ha in E.
@@ -471,31 +455,16 @@ End WithWr.
 From Coq Require String.
 #[local] Open Scope Z_scope.
 
-Definition known_bad_act (a : act) : bool :=
-  match a with
-  | AL (LIAdd _) | AL (LIMul _) | AD (DIOr _) => true      (* += *= |= : methods inherited unchanged from list / dict *)
-  | AL la => negb (lact_args_ok la)                         (* extend / slice assignment from a non-list iterable holding containers *)
-  | _ => false
-  end.
-Definition known_bad (x : op) : bool := match x with OAct _ a => known_bad_act a | _ => false end.
-
-(* the wrapped set read from ormtypes.py is: every method of the model except __iadd__, __imul__, __ior__ *)
-Lemma wr_gen_table m : wr_gen m = negb (match m with MLIAdd | MLIMul | MDIOr => true | _ => false end).
+(* the wrapped set read from ormtypes.py covers every method of the model (since fix f0ecc86 also __iadd__, __imul__, __ior__) *)
+Lemma wr_gen_table m : wr_gen m = true.
 Proof. destruct m; vm_compute; reflexivity. Qed.
 
-Lemma act_ok_gen a : known_bad_act a = false -> act_ok wr_gen a = true.
-Proof.
-  destruct a as [la|da|]; cbn [known_bad_act act_ok]; [| |reflexivity].
-  - destruct la; cbn [lact_name lact_args_ok]; rewrite wr_gen_table; cbn; intros H; try reflexivity; try discriminate;
-      now apply negb_false_iff in H.
-  - destruct da; cbn [dact_name]; rewrite wr_gen_table; cbn; intros H; try reflexivity; discriminate.
-Qed.
+Lemma act_ok_gen a : act_ok wr_gen a = true.
+Proof. destruct a as [la|da|]; cbn [act_ok]; [apply wr_gen_table | apply wr_gen_table | reflexivity]. Qed.
 
-Lemma ops_ok_gen ops : forallb (fun x => negb (known_bad x)) ops = true -> forallb (op_ok wr_gen) ops = true.
+Lemma ops_ok_gen ops : forallb (op_ok wr_gen) ops = true.
 Proof.
-  induction ops as [|x ops IH]; cbn; intros H; [reflexivity|]. apply andb_true_iff in H as [Hx Ho].
-  rewrite IH by assumption. rewrite andb_true_r. destruct x; cbn in *; try reflexivity.
-  apply act_ok_gen. now apply negb_true_iff in Hx.
+  induction ops as [|x ops IH]; cbn; [reflexivity|]. rewrite IH, andb_true_r. destruct x; cbn; try reflexivity. apply act_ok_gen.
 Qed.
 
 Lemma smem_In s l : smem s l = true -> In s l.
@@ -503,20 +472,15 @@ Proof. unfold smem. rewrite existsb_exists. intros [x [Hx E]]. apply String.eqb_
 Lemma In_smem s l : In s l -> smem s l = true.
 Proof. unfold smem. rewrite existsb_exists. intros H. exists s. split; [assumption | apply String.eqb_refl]. Qed.
 
-Lemma table_except (cov : String.string -> bool) known all :
-  forallb (fun s => smem s known || cov s) all = true ->
-  forall s, In s all -> ~ In s known -> cov s = true.
-Proof.
-  intros H s Hin Hk. rewrite forallb_forall in H. specialize (H s Hin). apply orb_true_iff in H as [H|H]; [|assumption].
-  elim Hk. now apply smem_In.
-Qed.
+Lemma table_all (cov : String.string -> bool) all : forallb cov all = true -> forall s, In s all -> cov s = true.
+Proof. intros H s Hin. rewrite forallb_forall in H. now apply H. Qed.
 
-Lemma covered_list_except_known s : In s cpython_list_mutators -> ~ In s known_unwrapped_list -> covered_list s = true.
-Proof. apply table_except. vm_compute. reflexivity. Qed.
-Lemma covered_dict_except_known s : In s cpython_dict_mutators -> ~ In s known_unwrapped_dict -> covered_dict s = true.
-Proof. apply table_except. vm_compute. reflexivity. Qed.
-Lemma covered_array_except_known s : In s cpython_list_mutators -> ~ In s known_unwrapped_list -> covered_array s = true.
-Proof. apply table_except. vm_compute. reflexivity. Qed.
+Lemma covered_list_all s : In s cpython_list_mutators -> covered_list s = true.
+Proof. apply table_all. vm_compute. reflexivity. Qed.
+Lemma covered_dict_all s : In s cpython_dict_mutators -> covered_dict s = true.
+Proof. apply table_all. vm_compute. reflexivity. Qed.
+Lemma covered_array_all s : In s cpython_list_mutators -> covered_array s = true.
+Proof. apply table_all. vm_compute. reflexivity. Qed.
 
 (* every mutator CPython has is an operation of the model (the constructor is replaced by the Tracked* classes) *)
 Lemma model_complete_list s : In s cpython_list_mutators -> In s modelled_list_names \/ In s tracked_list_overridden.
@@ -532,62 +496,29 @@ Proof.
   rewrite forallb_forall in E. specialize (E s H). apply orb_true_iff in E as [E|E]; [left|right]; now apply smem_In.
 Qed.
 
-Lemma persisted_gen ops o v : forallb (fun x => negb (known_bad x)) ops = true ->
+Lemma persisted_gen ops o v :
   let st := commit (run wr_gen ops (load o v)) in dbval st = canon (untrack (root st)).
-Proof. intros H. apply persisted. now apply ops_ok_gen. Qed.
+Proof. apply persisted. apply ops_ok_gen. Qed.
 
-Lemma wrap_inv_gen ops o v : forallb (fun x => negb (known_bad x)) ops = true -> well_tracked (run wr_gen ops (load o v)).
+Lemma wrap_inv_gen ops o v : well_tracked (run wr_gen ops (load o v)).
 Proof.
-  intros H. destruct (load_inv o v) as [Hw Hs]. now destruct (run_inv wr_gen ops _ (ops_ok_gen ops H) Hw Hs).
+  destruct (load_inv o v) as [Hw Hs]. now destruct (run_inv wr_gen ops _ (ops_ok_gen ops) Hw Hs).
 Qed.
 
-(* ------------------------------------------------------------------ witnesses: what the unchanged code loses *)
+Lemma dirty_gen st p a : well_tracked st -> is_read a = false ->
+  match update_at wr_gen p a (root st) with
+  | Some _ => dirty (step wr_gen st (OAct p a)) = true
+  | None => step wr_gen st (OAct p a) = st
+  end.
+Proof. intros Hw Hr. apply dirty_or_unchanged; [assumption | apply act_ok_gen | assumption]. Qed.
+
+Lemma value_changed_dirty_gen st p a : well_tracked st ->
+  untrack (root (step wr_gen st (OAct p a))) <> untrack (root st) -> dirty (step wr_gen st (OAct p a)) = true.
+Proof. intros Hw. apply value_changed_dirty; [assumption | apply act_ok_gen]. Qed.
+
+(* ------------------------------------------------------------------ sample: the sequences that were lost before fix f0ecc86 now reach the row *)
 Definition o1 : owner := (1%nat, 1%nat).
 Definition ka : key := [97].
 Definition doc1 : jv := JDict [(ka, JList [JNum 1; JNum 2]); ([100], JDict [([120], JNum 1)])].
-
-Definition lost (ops : list op) : bool :=
-  let st := run wr_gen ops (load o1 doc1) in
-  negb (dirty st) && negb (jv_eqb (dbval (commit st)) (canon (untrack (root st)))).
-
-Lemma iadd_lost : lost [OAct [KKey ka] (AL (LIAdd [JNum 3]))] = true.
-Proof. vm_compute. reflexivity. Qed.
-Lemma imul_lost : lost [OAct [KKey ka] (AL (LIMul 2))] = true.
-Proof. vm_compute. reflexivity. Qed.
-Lemma ior_lost : lost [OAct [KKey [100]] (AD (DIOr [([121], JNum 2)]))] = true.
-Proof. vm_compute. reflexivity. Qed.
-(* lst.extend(([9],)): the inner list stays a plain list; after a commit a change to it is invisible *)
 Definition ops_tuple : list op :=
   [OAct [KKey ka] (AL (LExtend false [JList [JNum 9]])); OCommit; OAct [KKey ka; KIdx (-1)] (AL (LAppend (JNum 10)))].
-Lemma extend_tuple_lost : lost ops_tuple = true.
-Proof. vm_compute. reflexivity. Qed.
-Lemma extend_tuple_untracked : tagged o1 (root (run wr_gen (firstn 1 ops_tuple) (load o1 doc1))) = false.
-Proof. vm_compute. reflexivity. Qed.
-Lemma setslice_tuple_lost :
-  lost [OAct [KKey ka] (AL (LSetSlice (Some 0) (Some 1) false [JDict []])); OCommit; OAct [KKey ka; KIdx 0] (AD (DSetItem [122] JNull))] = true.
-Proof. vm_compute. reflexivity. Qed.
-
-Lemma jv_eqb_refl v : jv_eqb v v = true.
-Proof.
-  unfold jv_eqb. induction v using jv_ind'; cbn; try reflexivity.
-  - now destruct b.
-  - apply Z.eqb_refl.
-  - induction s as [|x s IH]; cbn; [reflexivity | now rewrite Z.eqb_refl, IH].
-  - induction H as [|x l Hx Hl IH]; cbn; [reflexivity | now rewrite Hx, IH].
-  - induction H as [|[k x] d Hx Hd IH]; cbn; [reflexivity|]. cbn in Hx. rewrite Hx, IH.
-    assert (E : zs_eqb k k = true) by (clear; induction k as [|c k IH]; cbn; [reflexivity | now rewrite Z.eqb_refl, IH]).
-    now rewrite E.
-Qed.
-
-Lemma lost_refutes ops : lost ops = true ->
-  ~ (let st := commit (run wr_gen ops (load o1 doc1)) in dbval st = canon (untrack (root st))).
-Proof.
-  unfold lost. intros H E. apply andb_true_iff in H as [Hd Hne]. cbn zeta in E.
-  rewrite commit_root in E. rewrite E, jv_eqb_refl in Hne. discriminate.
-Qed.
-
-Lemma covered_list_refuted : In n_iadd cpython_list_mutators /\ covered_list n_iadd = false
-                          /\ In n_imul cpython_list_mutators /\ covered_list n_imul = false.
-Proof. repeat split; try (vm_compute; reflexivity); apply smem_In; vm_compute; reflexivity. Qed.
-Lemma covered_dict_refuted : In n_ior cpython_dict_mutators /\ covered_dict n_ior = false.
-Proof. split; [apply smem_In|]; vm_compute; reflexivity. Qed.
